@@ -587,6 +587,18 @@ def sec_montprog(ctx):
         changed.append("MontProg")
 
 
+@section('Derive')
+def sec_derive(ctx):
+    changed = ctx["changed"]
+    exp = expanded_source()
+    # the rest of the derive output (repr arithmetic, add/sub/neg/inverse/sqrt ..) -> one Lean def per fn
+    sys.path.insert(0, os.path.dirname(os.path.abspath(__file__)))
+    import extract_derive
+    manifest.extend(extract_derive.emit(exp, GEN, ExtractError))
+    if getattr(extract_derive, "CHANGED", False):
+        changed.append("Derive")
+
+
 @section('FqConsts')
 def sec_fqconsts(ctx):
     FQ = "src/bls12_381/fq.rs"
@@ -711,10 +723,20 @@ def sec_arith(ctx):
         changed.append("Arith")
 
 
+@section("Enc")
+def sec_enc(ctx):
+    changed = ctx["changed"]
+    sys.path.insert(0, os.path.dirname(os.path.abspath(__file__)))
+    import extract_enc
+    manifest.extend(extract_enc.emit(REPO, GEN, ExtractError))
+    if getattr(extract_enc, "CHANGED", False):
+        changed.append("Enc")
+
+
 def main():
     os.makedirs(GEN, exist_ok=True)
     ctx = {"changed": []}
-    for sec in (sec_fields, sec_montprog, sec_fqconsts, sec_curve, sec_maps, sec_chains, sec_arith):
+    for sec in (sec_fields, sec_montprog, sec_derive, sec_fqconsts, sec_curve, sec_maps, sec_chains, sec_arith, sec_enc):
         sec(ctx)
     changed = ctx["changed"]
     with open(os.path.join(VERIF, "gen_manifest.json"), "w") as f:
